@@ -23,6 +23,16 @@ DIRECTIONS = {
          "the documented default value of an argument versus the same value passed explicitly; dtype / device / layout of "
          "inputs (float32 tensors, integer tensors, numpy integer arrays, nested lists); the part of the property's "
          "statement that is quoted least often.",
+    "5": "the error path: after an exception was raised (and caught by the user) inside a public call, the object is left in a "
+         "state that makes the NEXT, perfectly legal call violate the property; objects that went through copy.deepcopy, "
+         "pickle or a save/load round trip before use; the numerical regime (quantities that underflow or overflow in "
+         "float32 but not float64, exact ties, probabilities of exactly 0 or 1, -0.0); counters and thresholds that are only "
+         "reached late (epoch numbers >= 10 or >= 100 where a string sort or a format width matters, the 2nd/3rd/17th call, "
+         "periods larger than the number of epochs); Python protocol details (dict iteration order, a generator or a tuple "
+         "where a list is usual, a user subclass calling super(), isinstance versus duck typing, __eq__/__hash__ of "
+         "library objects, keyword-only use of rarely passed documented arguments); ambient torch state that users "
+         "legitimately change (torch.set_default_dtype(torch.float32), torch.no_grad(), torch.set_num_threads, a model moved "
+         "with .double()/.to()); public functions and arguments in the anchored files that no example or test exercises.",
 }
 
 
